@@ -14,7 +14,7 @@ Q = "markdown_it.helpers.parse_link_title.parseLinkTitle"
 FUNCS = [Q]
 CLOSER = "(string[result.pos - 1])"
 add(Contract(
-    Q, params={"string": "str", "pos": "int", "maximum": "int"}, props=["C09", "C16", "C01"],
+    Q, params={"string": "str", "pos": "int", "maximum": "int"}, result="obj:_Result", modifies=[], props=["C09", "C16", "C01"],
     requires=[("range", "0 <= pos and maximum <= len(string)")],
     ensures=[
         ("fail-shape", "implies(not result.ok, result.pos == 0 and result.lines == 0)", ["C16"]),
@@ -38,7 +38,7 @@ add(Contract("markdown_it.helpers.parse_link_destination._Result.__init__", inli
 QD = "markdown_it.helpers.parse_link_destination.parseLinkDestination"
 ANGLE = "(pos < len(string) and string[pos] == '<')"
 add(Contract(
-    QD, params={"string": "str", "pos": "int", "maximum": "int"}, props=["C01", "C05", "C16", "C03"],
+    QD, params={"string": "str", "pos": "int", "maximum": "int"}, result="obj:_Result", modifies=[], props=["C01", "C05", "C16", "C03"],
     requires=[("range", "0 <= pos and maximum <= len(string)")],
     ensures=[
         ("fail-shape", "implies(not result.ok, result.pos == 0 and result.lines == 0)", ["C16"]),
